@@ -32,7 +32,7 @@ import (
 
 func zzvWorkerConfig() *telemetry.UploadConfig {
 	return &telemetry.UploadConfig{
-		GOOS: []string{"linux", "darwin"}, GOARCH: []string{"amd64", "arm64"}, GoVersion: []string{"go1.21.0", "go1.21.5", "go1.22.0"}, SampleRate: 1,
+		GOOS: []string{"linux", "darwin"}, GOARCH: []string{"amd64", "arm64"}, GoVersion: []string{"go1", "go1.21.0", "go1.21.5", "go1.22.0"}, SampleRate: 1, // "go1": the tag of Go 1.0, a version without a minor part
 		Programs: []*telemetry.ProgramConfig{
 			{Name: "example.com/p1", Versions: []string{"v1.0.0", "v1.1.0", "v1.1.0+meta"},
 				Counters: []telemetry.CounterConfig{{Name: "c", Rate: 1}, {Name: "d:{a,b}", Rate: 1}},
@@ -84,7 +84,13 @@ func (w *zzvWorld) merge(day string) (int, string) {
 	return rec.Code, rec.Body.String()
 }
 
-func (w *zzvWorld) chart(query string) (int, string) {
+func (w *zzvWorld) chart(query string) (code int, body string) {
+	defer func() {
+		if r := recover(); r != nil {
+			// the server's Recover middleware would answer 500; for the check a panic is a failure of its own
+			code, body = 599, fmt.Sprintf("handler panic: %v", r)
+		}
+	}()
 	rec := httptest.NewRecorder()
 	handleChart(w.cfg, w.api).ServeHTTP(rec, httptest.NewRequest("GET", "/chart/?"+query, nil))
 	return rec.Code, rec.Body.String()
